@@ -4,6 +4,7 @@ import (
 	"fmt"
 	"go/token"
 	"go/types"
+	"os"
 	"sort"
 	"strings"
 
@@ -640,8 +641,56 @@ func checkStubInstalledWithContinuation(p *Prog, r *Report, rule string, only fu
 		}
 	}
 	// every exported Apply installs its callback on every path (no "same callback, skip" shortcuts)
+	// (an Apply that takes a callback, of a type some method of which can install: the Apply of a variable mock or of a
+	// guard installs nothing by design)
+	typeInstalls := map[string]bool{}
+	recvName := func(f *ssa.Function) string {
+		t := f.Signature.Recv().Type()
+		if pt, ok := t.(*types.Pointer); ok {
+			t = pt.Elem()
+		}
+		if nt, ok := t.(*types.Named); ok {
+			return nt.Obj().Name()
+		}
+		return ""
+	}
 	for _, f := range root {
-		if f.Object() == nil || f.Name() != "Apply" || f.Signature.Recv() == nil || (only != nil && !only(f)) || !reach[f] {
+		if f.Signature.Recv() == nil {
+			continue
+		}
+		if reach[f] {
+			typeInstalls[recvName(f)] = true
+		}
+		// a type that carries the stub continuation (directly or through an embedded base) is a mocker of code: its Apply
+		// must install
+		var hasCont func(t types.Type, depth int) bool
+		hasCont = func(t types.Type, depth int) bool {
+			if pt, ok := t.(*types.Pointer); ok {
+				t = pt.Elem()
+			}
+			st, ok := t.Underlying().(*types.Struct)
+			if !ok || depth > 3 {
+				return false
+			}
+			for k := 0; k < st.NumFields(); k++ {
+				if st.Field(k) == contFld {
+					return true
+				}
+				if st.Field(k).Embedded() && hasCont(st.Field(k).Type(), depth+1) {
+					return true
+				}
+			}
+			return false
+		}
+		if hasCont(f.Signature.Recv().Type(), 0) {
+			typeInstalls[recvName(f)] = true
+		}
+	}
+	for _, f := range root {
+		if f.Object() == nil || f.Name() != "Apply" || f.Signature.Recv() == nil || (only != nil && !only(f)) || f.Signature.Params().Len() != 1 || f.Blocks == nil {
+			continue
+		}
+		if !reach[f] && !typeInstalls[recvName(f)] {
 			continue
 		}
 		okAll := true
@@ -649,6 +698,13 @@ func checkStubInstalledWithContinuation(p *Prog, r *Report, rule string, only fu
 			if !passedBefore(f, ret, isInstallCall, nil) {
 				okAll = false
 			}
+		}
+		if os.Getenv("GOOMVET_DEBUG") != "" {
+			eachInstr(f, func(i ssa.Instruction) {
+				if isInstallCall(i) {
+					fmt.Println("C12 install call in", shortName(f), ":", i.String())
+				}
+			})
 		}
 		r.Check(okAll, rule, shortName(f)+" installs the given callback on every path", p.Pos(f.Pos()), "every return passes an installing call",
 			"Apply can return without installing the callback it was given (an early-out such as 'same callback as before'): the most recent Apply is dropped and the earlier callback stays in effect")
